@@ -4,7 +4,7 @@
 ID=$1; PROP=$2; TIER=${3:-quick}
 WT=/tmp/wt/try_$ID
 git -C /repo worktree add -q --detach $WT HEAD 2>/dev/null || { git -C $WT checkout -q -- . ; git -C $WT clean -fdq; }
-git -C $WT apply /verif/seeded/$ID/patch.diff || { echo "patch failed"; exit 2; }
+git -C $WT apply -3 /verif/seeded/$ID/patch.diff 2>/dev/null || { echo "patch failed"; exit 2; }
 mkdir -p /tmp/tcheck-try/$ID && cp /verif/known_findings.json /tmp/tcheck-try/$ID/
 TCHECK_REPO=$WT TCHECK_VERIF=/tmp/tcheck-try/$ID /verif/bin/tcheck $PROP --tier $TIER > /tmp/tcheck-try/$ID/out.txt 2>&1
 rc=$?
